@@ -37,3 +37,36 @@ package ecs
 //@   serves C04 C05 C16
 //@   ensures  inv: tidsInv(t)
 //@   ensures  empty: len(t.tables) == 0 && (forall j tableID :: !tidsHas(t, j))
+
+// AddTable indexes a table that is not listed by the archetype yet: in the list of active tables
+// and, for each relation column, under the column's target. A table with two relation columns
+// that have the same target must be listed once under that target (C04): every Append below is
+// only legal for an id that the list does not hold.
+//@ pred archListsInv(a *archetype) :=
+//@      a.archetypeData != nil && tidsInv(&a.tables)
+//@   && len(a.relationTables) == len(a.isRelation)
+//@   && (a.numRelations > 0 ==> a.targetTables != nil)
+//@   && (forall c int, e entityID :: __trigger(__get(a.relationTables[c], e)) && (0 <= c && c < len(a.relationTables) && __has(a.relationTables[c], e) ==> __get(a.relationTables[c], e) != nil && tidsInv(__get(a.relationTables[c], e))))
+//@   && (forall c int :: 0 <= c && c < len(a.relationTables) && a.isRelation[c] ==> a.relationTables[c] != nil)
+//@   && (forall e entityID :: __trigger(__get(a.targetTables, e)) && (__has(a.targetTables, e) ==> __get(a.targetTables, e) != nil && tidsInv(__get(a.targetTables, e))))
+
+//@ func (*archetype).AddTable
+//@   serves C04 C03 C05
+//@   requires archListsInv(a) && table != nil && !tidsHas(&a.tables, table.id) && uint64(len(a.tables.tables)) < 1<<32 - 1
+//@   requires len(table.columns) == len(table.ids) && len(table.ids) == len(a.relationTables)
+//@   requires forall c int, e entityID :: 0 <= c && c < len(a.relationTables) && __has(a.relationTables[c], e) ==> !tidsHas(__get(a.relationTables[c], e), table.id) && uint64(len(__get(a.relationTables[c], e).tables)) < 1<<32 - 1
+//@   requires forall e entityID :: __has(a.targetTables, e) ==> uint64(len(__get(a.targetTables, e).tables)) < 1<<32 - 1
+//@   loop 1 invariant lists: archListsInv(a)
+//@   ensures  listed: tidsHas(&a.tables, table.id)
+
+//@ func newTableIDs
+//@   serves C04 C05 C03
+//@   requires uint64(len(tables)) < 1<<32
+//@   requires forall i int, j int :: 0 <= i && i < j && j < len(tables) ==> tables[i] != tables[j]
+//@   loop 1 invariant map: indices != nil && __fresh(indices)
+//@   loop 1 invariant fwd: forall k int :: 0 <= k && k < __idx ==> __has(indices, tables[k]) && int(indices[tables[k]]) == k
+//@   loop 1 invariant bwd: forall id tableID :: __has(indices, id) ==> int(indices[id]) < __idx && tables[indices[id]] == id
+//@   ensures  same: len(result.tables) == len(tables) && (forall k int :: 0 <= k && k < len(tables) ==> result.tables[k] == tables[k])
+//@   ensures  map: result.indices != nil && __fresh(result.indices)
+//@   ensures  fwd: forall k int :: 0 <= k && k < len(tables) ==> __has(result.indices, tables[k]) && int(result.indices[tables[k]]) == k
+//@   ensures  bwd: forall id tableID :: __has(result.indices, id) ==> int(result.indices[id]) < len(tables) && tables[result.indices[id]] == id
